@@ -405,7 +405,8 @@ bool tickit_pen_set_colour_attr_desc(TickitPen *pen, TickitPenAttr attr, const c
   }
 
   for(int i = 0; i < sizeof(colournames)/sizeof(colournames[0]); i++) {
-    if(strncmp(desc, colournames[i].name, len) != 0)
+    if(strlen(colournames[i].name) != len ||
+        strncmp(desc, colournames[i].name, len) != 0)
       continue;
 
     val = colournames[i].colour;
